@@ -67,7 +67,14 @@ def check_snapshot_on(b, tr, snap, res, label=''):
         k = min(tr.n - 2, int(snap['at'][1] * (tr.n - 1)))
         t_si = float(times[k] + (times[k + 1] - times[k]) * snap['at'][2])
         between = True
-    target = G.qty('Time', t_si, snap['unit'])
+    if not between:
+        # the recorded instant itself: same unit -> the identical number (same-unit comparisons are exact by design),
+        # other unit -> the correctly rounded conversion
+        x = pt.time[k]
+        target = [x.value, x.unit] if x.unit == snap['unit'] else \
+            [float(U.convert_exact('Time', x.value, x.unit, snap['unit'])), snap['unit']]
+    else:
+        target = G.qty('Time', t_si, snap['unit'])
     t_back = U.si('Time', *target)
     recorded = set()
     for d in tr.lens:
